@@ -40,7 +40,8 @@ Record tokparts := mkTok {
   tk_hdr : hdr;
   tk_claims : cseg;
   tk_sig_b64 : bool;        (* the signature segment is base64url *)
-  tk_sig_ok : bool;         (* ... and equals HMAC_alg(key of the validator, header "." claims) *)
+  tk_mac_key : option bytes; (* ... and is HMAC_alg(k, header "." claims) for this secret k - the WHOLE byte string of a
+                               secret, found by recomputing the MAC under every secret of the run; None: under none *)
   tk_sig_canon : bool;      (* the signature segment is exactly the unpadded base64url text of the bytes it decodes to *)
   tk_iat : option Z;        (* claim IssuedAt, when it is a string: result of parsing it as RFC 3339 (ns) *)
   tk_pl : option N          (* digest of the claims decoded into the expected payload struct; None = does not decode *)
@@ -106,6 +107,10 @@ Definition claims_verdict (now : Z) (c : claims) : option jerr :=
   | DFail, _ => Some JExpired
   | _, _ => Some JClaims
   end.
+
+(* HMAC as an ideal MAC: a signature made under secret k verifies under secret k' iff k = k' as
+   byte strings (whatever their lengths) *)
+Definition mac_under (key : bytes) (t : tokparts) : bool := option_eqb lex_eqb (tk_mac_key t) (Some key).
 
 Definition parse_verdict (now : Z) (alg : option bytes) (c : claims) (sig_b64 sig_ok : bool) : option jerr :=
   match alg with
@@ -180,8 +185,9 @@ Definition build_gp_g (checked : bool) (c : claims) (iat : option Z) : gpres :=
   end.
 
 (* JWTSigner.ValidateToken; ac / dc: whether the aud / Duration assertions are checked ones;
-   sc: whether a valid token's signature segment is compared with its canonical encoding *)
-Definition validate_tok_g (ac dc sc : bool) (expected_aud : bytes) (now : Z) (v : view) : outcome :=
+   sc: whether a valid token's signature segment is compared with its canonical encoding;
+   key: the secret the validator was constructed with (the whole byte string) *)
+Definition validate_tok_g (ac dc sc : bool) (key expected_aud : bytes) (now : Z) (v : view) : outcome :=
   match v with
   | VNoSplit => Err EInvalidToken              (* parser returns no token: error wrapped with ErrInvalidToken *)
   | VTok t =>
@@ -190,7 +196,7 @@ Definition validate_tok_g (ac dc sc : bool) (expected_aud : bytes) (now : Z) (v 
       | HObj alg =>
           (* token.Claims is the (possibly still empty) map from here on *)
           let '(c, pv) := match tk_claims t with
-                          | CObj c => (c, parse_verdict now alg c (tk_sig_b64 t) (tk_sig_ok t))
+                          | CObj c => (c, parse_verdict now alg c (tk_sig_b64 t) (mac_under key t))
                           | _ => ([], Some JMalformed)
                           end in
           match aud_of_g ac c with
@@ -213,8 +219,8 @@ Definition validate_tok_g (ac dc sc : bool) (expected_aud : bytes) (now : Z) (v 
   end.
 
 (* implIAppTokens.ValidateToken *)
-Definition validate_app_g (ac dc sc : bool) (expected_aud app : bytes) (now : Z) (v : view) : outcome :=
-  match validate_tok_g ac dc sc expected_aud now v with
+Definition validate_app_g (ac dc sc : bool) (key expected_aud app : bytes) (now : Z) (v : view) : outcome :=
+  match validate_tok_g ac dc sc key expected_aud now v with
   | Ok g p => if lex_eqb (gp_app g) app then Ok g p else Err EOtherApp
   | o => o
   end.
@@ -235,27 +241,31 @@ Definition issue_claims (aud app : bytes) (d t0 : Z) (iat_text : bytes) (payload
     (jwt_k_app_issue, JStr app);
     (jwt_k_issuedat_issue, JStr iat_text) ] ++ payload.
 
-(* view of an issued token held against a validator: signed with HS256; the signature verifies
-   iff the validator has the signer's key; the signature segment is the canonical encoding
+(* NewJWTSigner: secrets shorter than SecretKeyLength are refused (panic) *)
+Definition signer_constructible (key : bytes) : bool := (jwt_secret_min_len <=? N.of_nat (length key))%N.
+
+(* view of a token issued by a signer with secret k: signed with HS256 under k (so the signature
+   verifies exactly under the byte string k); the signature segment is the canonical encoding
    (jwt/v5 encodes it); library round trips (RFC 3339 text of t0 parses back
    to t0, the payload's JSON decodes back into its type) appear as the two last fields *)
-Definition issued_view (same_key : bool) (aud app : bytes) (d t0 : Z) (iat_text : bytes) (payload : claims) (digest : option N) : view :=
-  VTok (mkTok (HObj (Some s_HS256)) (CObj (issue_claims aud app d t0 iat_text payload)) true same_key true (Some t0) digest).
+Definition issued_view (k : bytes) (aud app : bytes) (d t0 : Z) (iat_text : bytes) (payload : claims) (digest : option N) : view :=
+  VTok (mkTok (HObj (Some s_HS256)) (CObj (issue_claims aud app d t0 iat_text payload)) true (Some k) true (Some t0) digest).
 
 (* ---- observed traces ---- *)
 Inductive obs := OPanic | OErr (e : ekind) | OOk (g : gp) (payload : N).
 
 (* how the harness produced the string (what it knows without looking at any result) *)
 Inductive origin :=
-| OIssued (same_key intact : bool) (app aud : bytes) (t0 d : Z) (payload : N)
-    (* IssueToken of the real code at clock t0 for app / payload type aud / duration d;
-       same_key: the signer's secret is the validator's; intact: the string was not changed *)
-| OSigned (same_key : bool) (aud app : option bytes) (exp : option Z)
-    (* header.claims written by the harness; same_key: signed with a real HMAC under the validator's
-       secret; aud/app/exp: the claims as the harness wrote them (exp in whole seconds, rounded down) *)
+| OIssued (key : bytes) (intact : bool) (app aud : bytes) (t0 d : Z) (payload : N)
+    (* IssueToken of the real code, by a signer constructed with secret key, at clock t0 for app /
+       payload type aud / duration d; intact: the string was not changed *)
+| OSigned (key : option bytes) (aud app : option bytes) (exp : option Z)
+    (* header.claims written by the harness; key: the secret it signed them with by a real HMAC of
+       the header's method (None: not signed that way); aud/app/exp: the claims as the harness wrote them (exp in whole seconds, rounded down) *)
 | ORaw.  (* any other string: nothing in it was computed from a secret *)
 
-Record trace := mkTrace {
+Record vtrace := mkTrace {
+  t_key : bytes;        (* secret of the validating signer (whole byte string) *)
   t_now : Z;
   t_aud : bytes;        (* payload type the validator expects *)
   t_app : bytes;        (* application of the IAppTokens *)
@@ -287,49 +297,77 @@ Definition out_obs_eqb (o : outcome) (b : obs) : bool :=
 Definition auth_code (o : outcome) : N := match o with Ok _ _ => 0 | Err _ => 1 | Panic => 2 end%N.
 
 (* agrees: the model reproduces every recorded result *)
-Definition agrees (t : trace) : bool :=
-  out_obs_eqb (validate_tok (t_aud t) (t_now t) (t_view t)) (t_tok t)
-  && out_obs_eqb (validate_app (t_aud t) (t_app t) (t_now t) (t_view t)) (t_apptok t)
+Definition agrees_v (t : vtrace) : bool :=
+  out_obs_eqb (validate_tok (t_key t) (t_aud t) (t_now t) (t_view t)) (t_tok t)
+  && out_obs_eqb (validate_app (t_key t) (t_aud t) (t_app t) (t_now t) (t_view t)) (t_apptok t)
   && match t_auth t with
      | None => true
-     | Some c => (c =? auth_code (validate_app (t_aud t) (t_app t) (t_now t) (t_view t)))%N
+     | Some c => (c =? auth_code (validate_app (t_key t) (t_aud t) (t_app t) (t_now t) (t_view t)))%N
      end.
 
 (* satisfies: the property on the observed results and the origin of the string only.
    No call may panic.  A call may succeed only if the string is an unchanged token issued with the
-   validator's secret (or a header.claims pair HMAC-signed with that secret), for the expected
+   validator's secret - the same byte string, of whatever length - (or a header.claims pair
+   HMAC-signed with that secret), for the expected
    payload type, for the validator's application when the validation is application-bound, and
    its lifetime has not elapsed; the generic and decoded payloads of an issued token are the
    issued ones. *)
-Definition origin_allows (bound : bool) (t : trace) : bool :=
+Definition origin_allows (bound : bool) (t : vtrace) : bool :=
   match t_origin t with
-  | OIssued sk intact app aud t0 d _ =>
-      sk && intact && lex_eqb aud (t_aud t) && (t_now t <? t0 + d) && (negb bound || lex_eqb app (t_app t))
-  | OSigned sk aud app exp =>
-      sk && option_eqb lex_eqb aud (Some (t_aud t))
+  | OIssued key intact app aud t0 d _ =>
+      lex_eqb key (t_key t) && intact && lex_eqb aud (t_aud t) && (t_now t <? t0 + d) && (negb bound || lex_eqb app (t_app t))
+  | OSigned key aud app exp =>
+      option_eqb lex_eqb key (Some (t_key t)) && option_eqb lex_eqb aud (Some (t_aud t))
       && match exp with Some e => t_now t <? e * ns_per_s | None => true end
       && (negb bound || option_eqb lex_eqb app (Some (t_app t)))
   | ORaw => false
   end.
 
-Definition payload_matches (t : trace) (g : gp) (p : N) : bool :=
+Definition payload_matches (t : vtrace) (g : gp) (p : N) : bool :=
   match t_origin t with
   | OIssued _ _ app _ t0 d dig => lex_eqb (gp_app g) app && (gp_dur g =? d) && option_eqb Z.eqb (gp_iat g) (Some t0) && (p =? dig)%N
   | OSigned _ _ app _ => option_eqb lex_eqb app (Some (gp_app g))
   | ORaw => true
   end.
 
-Definition obs_allowed (bound : bool) (t : trace) (o : obs) : bool :=
+Definition obs_allowed (bound : bool) (t : vtrace) (o : obs) : bool :=
   match o with
   | OPanic => false
   | OErr _ => true
   | OOk g p => origin_allows bound t && payload_matches t g p
   end.
 
-Definition satisfies (t : trace) : bool :=
+Definition satisfies_v (t : vtrace) : bool :=
   obs_allowed false t (t_tok t)
   && obs_allowed true t (t_apptok t)
   && match t_auth t with
      | None => true
      | Some c => negb (c =? 2)%N && (negb (c =? 0)%N || origin_allows true t)
      end.
+
+(* ---- secrets: construction and CryptoHash256 of two signers side by side ---- *)
+Record ktrace := mkKeys {
+  k_a : bytes; k_b : bytes;            (* the two secrets *)
+  k_ctor_a : bool; k_ctor_b : bool;    (* NewJWTSigner returned (true) or panicked (false) *)
+  k_hash_eq : option bool              (* both constructed: CryptoHash256(data) of a = that of b, same data *)
+}.
+
+(* model: construction succeeds from the minimum length on; the keyed hash is an ideal MAC, equal
+   for equal secrets and only for them *)
+Definition agrees_k (t : ktrace) : bool :=
+  Bool.eqb (k_ctor_a t) (signer_constructible (k_a t))
+  && Bool.eqb (k_ctor_b t) (signer_constructible (k_b t))
+  && option_eqb Bool.eqb (k_hash_eq t)
+       (if signer_constructible (k_a t) && signer_constructible (k_b t) then Some (lex_eqb (k_a t) (k_b t)) else None).
+
+(* property side: signers with different secrets (different byte strings) are different signers -
+   their keyed hashes of the same data differ; the same secret gives the same hash *)
+Definition satisfies_k (t : ktrace) : bool :=
+  match k_hash_eq t with
+  | Some e => Bool.eqb e (lex_eqb (k_a t) (k_b t))
+  | None => true
+  end.
+
+Inductive trace := TVal (t : vtrace) | TKeys (t : ktrace).
+Definition agrees (t : trace) : bool := match t with TVal v => agrees_v v | TKeys k => agrees_k k end.
+Definition satisfies (t : trace) : bool := match t with TVal v => satisfies_v v | TKeys k => satisfies_k k end.
